@@ -90,7 +90,7 @@ theorem frame_sendRequest (a : Agent) (now : Nat) (l r : Cand) (uc : Bool) (nom 
   have h2 : Frame a { (a.invalidatePending now) with
       nextTid := (a.invalidatePending now).nextTid + 1,
       pending := (a.invalidatePending now).pending ++
-        [{ tid := 2 * a.nextTid + a.tag, dest := r.addr, net := r.net, useCand := uc, nom := nom, ts := now }] } := by
+        [{ tid := 2 * a.nextTid + a.tag, src := l.addr, dest := r.addr, net := r.net, useCand := uc, nom := nom, ts := now }] } := by
     refine ⟨⟨rfl, Nat.le_succ _, ?_⟩, rfl, rfl, rfl⟩
     intro pd h
     rcases List.mem_append.mp h with h | h
